@@ -88,17 +88,17 @@ func (o *Object) String() string { return fmt.Sprintf("%s#%d", o.Name, o.ID) }
 // ---------- state ----------
 
 type State struct {
-	mem    map[*Object]Value
-	pc     *Term
+	mem     map[*Object]Value
+	pc      *Term
 	headObj int   // number of objects allocated when the head of the innermost annotated loop was last crossed (iterfresh)
-	headPC *Term // path condition at the head of the innermost annotated loop entered (nil: none); used by "+ forget"
-	path   *Term // branch decisions only (conjunction of the conditions of the branches taken); nil = true
-	ghosts map[string]*Term
-	srcVar map[string]Value // source-level variable name -> current value (for register vars) or *PtrV (for addressable)
-	srcAdr map[string]bool
-	envs   []map[ssa.Value]Value
-	defers map[int][]*deferredCall // by env depth
-	cnt    map[string]int          // anchor counters of this path (stores, definitions, calls seen so far)
+	headPC  *Term // path condition at the head of the innermost annotated loop entered (nil: none); used by "+ forget"
+	path    *Term // branch decisions only (conjunction of the conditions of the branches taken); nil = true
+	ghosts  map[string]*Term
+	srcVar  map[string]Value // source-level variable name -> current value (for register vars) or *PtrV (for addressable)
+	srcAdr  map[string]bool
+	envs    []map[ssa.Value]Value
+	defers  map[int][]*deferredCall // by env depth
+	cnt     map[string]int          // anchor counters of this path (stores, definitions, calls seen so far)
 }
 
 type deferredCall struct {
